@@ -309,7 +309,9 @@ class CSSImportRule(cssrule.CSSRule):
                     encodingOverride=encodingOverride,
                     encoding=encoding)
 
-            except (OSError, IOError, ValueError) as e:
+            except (OSError, IOError, ValueError, xml.dom.DOMException) as e:
+                # (a DOMException: the imported sheet was rejected while the
+                # log raises; like any failed load it stays empty)
                 self._log.warn('CSSImportRule: While processing imported '
                                'style sheet href=%s: %r'
                                % (self.href, e), neverraise=True)
